@@ -147,8 +147,14 @@ impl Add for Duration {
             None => {
                 // Overflowed, so we've hit the bound.
                 if self.centuries < 0 {
-                    // We've hit the negative bound, so return MIN.
-                    return Self::MIN;
+                    // The sum of the centuries is below the bound, but the nanoseconds of both
+                    // operands may bring the sum back in range: use the exact nanosecond counts,
+                    // from_total_nanoseconds saturates at MIN.
+                    let exact_ns = |d: &Self| {
+                        i128::from(d.centuries) * i128::from(NANOSECONDS_PER_CENTURY)
+                            + i128::from(d.nanoseconds)
+                    };
+                    return Self::from_total_nanoseconds(exact_ns(&self) + exact_ns(&rhs));
                 } else {
                     // We've hit the positive bound, so return MAX.
                     return Self::MAX;
